@@ -272,4 +272,8 @@ def jobs(tier):
                     J.append(Job(f'Gaussian.logpdf:{param}:{form}:sparse_switch={side}:n={n}',
                                  lambda c, p=param, f=form, n=n, s=side: gaussian_form(c, p, f, n, s), lvl, G, timeout=300,
                                  nnum=(40 if lvl == 'B' else None)))
+    # "the Markov-random-field priors equal the documented densities of the finite differences of the shifted variable": the
+    # contracts live with the difference-operator contracts of C20 and are claimed for this property as well
+    from contracts import C20 as _c20
+    J += [j for j in _c20.jobs(tier) if j.id.split(':')[0] in ('GMRF.logpdf', 'LMRF.logpdf', 'CMRF.logpdf', 'GMRF.logpdf2D', 'LMRF.logpdf2D', 'CMRF.logpdf2D', 'GMRF.structure')]
     return J
